@@ -236,6 +236,7 @@ pub fn answer(req: &str) -> String {
         ("deck", [i]) => fmt_opt(guarded(|| Deck::get(*i as usize))),
         ("frombc", [x]) => fmt_opt(guarded(|| <CKCNumber as PokerCard>::from_binary_card(*x))),
         ("find", [k]) => fmt_opt(guarded(|| Five::find_in_products(*k as usize))),
+        ("enum5", [a, p]) if *a < 52 && *p < 120 => enum5(*a as usize, *p as usize),
         ("ev5", ws) if ws.len() == 5 => {
             let Some(ws) = u32s(ws) else { return "bad-request".into() };
             let arr = [ws[0], ws[1], ws[2], ws[3], ws[4]];
@@ -408,6 +409,52 @@ pub fn answer(req: &str) -> String {
     }
 }
 
+/// the `p`-th permutation (0..119) of five positions, factorial number system (same as the driver's)
+pub fn perm5(p: usize) -> [usize; 5] {
+    let mut pool = vec![0usize, 1, 2, 3, 4];
+    let mut out = [0usize; 5];
+    let mut q = p;
+    for (n, k) in [5usize, 4, 3, 2, 1].iter().enumerate() {
+        let i = q % k;
+        q /= k;
+        out[n] = pool.remove(i);
+    }
+    out
+}
+
+/// bulk answer: every five-card hand whose lowest deck index is `a`, slots permuted by `perm5(p)`
+fn enum5(a: usize, p: usize) -> String {
+    let deck = layout_deck();
+    let pm = perm5(p);
+    let mut out = String::new();
+    for b in a + 1..52 {
+        for c in b + 1..52 {
+            for d in c + 1..52 {
+                for e in d + 1..52 {
+                    let base = [deck[a], deck[b], deck[c], deck[d], deck[e]];
+                    let arr = [base[pm[0]], base[pm[1]], base[pm[2]], base[pm[3]], base[pm[4]]];
+                    let h = Five::from(arr);
+                    let code = match guarded(|| h.hand_rank_value()) {
+                        None => 999999u32,
+                        Some(v) => {
+                            let ok = guarded(|| h.hand_rank_value_validated()) == Some(v)
+                                && guarded(|| ckc_rs::evaluate::five_cards(arr)) == Some(v);
+                            v as u32 * 16
+                                + h.is_flush() as u32
+                                + 2 * h.is_straight() as u32
+                                + 4 * h.is_wheel() as u32
+                                + 8 * ok as u32
+                        }
+                    };
+                    out.push_str(&code.to_string());
+                    out.push(' ');
+                }
+            }
+        }
+    }
+    out.trim_end().to_string()
+}
+
 /// words worth looking at: the 52 cards, blank, every multiples-flag combination on them,
 /// single-bit corruptions, field-boundary patterns
 pub fn structured_words() -> Vec<u32> {
@@ -453,6 +500,43 @@ pub fn cases(prop: &str, thorough: bool, seed: u64, c: &mut Cases) {
                 for s in CardSuit::iter() {
                     c.emit("create", &format!("create {} {}", r as u8, s as u8));
                 }
+            }
+        }
+        "C01" => {
+            let perms: Vec<usize> = if thorough {
+                (0..120).collect()
+            } else {
+                vec![0, 1 + rng.below(119) as usize, 1 + rng.below(119) as usize]
+            };
+            for p in perms {
+                for a in 0..48 {
+                    c.emit("enum5/all-hands-with-lowest-card-a", &format!("enum5 {a} {p}"));
+                }
+            }
+            let deck = layout_deck();
+            for _ in 0..(if thorough { 200_000 } else { 20_000 }) {
+                let mut idx: Vec<usize> = (0..52).collect();
+                rng.shuffle(&mut idx);
+                c.emit("ev5/seeded-hand-seeded-order", &format!("ev5 {}", join(idx[..5].iter().map(|i| deck[*i]))));
+            }
+            let mut keys: Vec<u64> = (0..4100).collect();
+            for p in ckc_rs::verif_hooks::PRODUCTS {
+                keys.extend([p as u64 - 1, p as u64, p as u64 + 1]);
+            }
+            for k in 0..64 {
+                let p = 1u64 << k;
+                keys.extend([p.wrapping_sub(1), p, p.wrapping_add(1)]);
+            }
+            keys.push(u64::MAX);
+            for _ in 0..(if thorough { 1_000_000 } else { 100_000 }) {
+                keys.push(match rng.below(3) {
+                    0 => rng.below(104_553_158 + 1000),
+                    1 => rng.below(1 << 32),
+                    _ => rng.next(),
+                });
+            }
+            for k in keys {
+                c.emit("find", &format!("find {k}"));
             }
         }
         "C14" => {
@@ -529,6 +613,7 @@ pub fn sweep(prop: &str, thorough: bool, seed: u64) -> Sweep {
         "C10" => sweep_c10(),
         "C18" => sweep_c18(seed, thorough),
         "C14" => sweep_c14(seed, thorough),
+        "C01" => sweep_c01(seed, thorough),
         "C20" => sweep_c20(),
         _ => panic!("no sweep for {prop}"),
     }
@@ -897,5 +982,122 @@ fn sweep_c20() -> Sweep {
     }
     s.sample(format!("mark(5, {}) = {}", deck[0], mark(5, deck[0])));
     s.sample(format!("strip({}) = {}", mark(7, deck[51]), mark(7, deck[51]).strip_multiples_flags()));
+    s
+}
+
+/// The spec-derived oracle (written by the Lean driver from `Spec.strength` only): class -> ordinal.
+pub struct Oracle5 {
+    pub ord: Vec<u16>,       // index: class code
+    pub strength: Vec<u32>,  // index: class code
+    pub classes: usize,
+}
+pub fn class_code(sorted_desc: [u32; 5], flush: bool) -> usize {
+    let mut e = 0usize;
+    for r in sorted_desc {
+        e = e * 13 + r as usize;
+    }
+    e * 2 + flush as usize
+}
+impl Oracle5 {
+    pub fn load() -> Oracle5 {
+        let path = std::env::var("CKC_ORACLE5").unwrap_or_else(|_| "build/oracle5.txt".into());
+        let text = std::fs::read_to_string(&path).unwrap_or_else(|e| panic!("oracle file {path}: {e}"));
+        let nums: Vec<u64> = text.split_whitespace().map(|t| t.parse().expect("oracle number")).collect();
+        assert!(nums.len() % 8 == 0, "oracle format");
+        let mut ord = vec![0u16; 13usize.pow(5) * 2];
+        let mut strength = vec![0u32; 13usize.pow(5) * 2];
+        for ch in nums.chunks(8) {
+            let code = class_code([ch[0] as u32, ch[1] as u32, ch[2] as u32, ch[3] as u32, ch[4] as u32], ch[5] == 1);
+            ord[code] = ch[6] as u16;
+            strength[code] = ch[7] as u32;
+        }
+        Oracle5 { ord, strength, classes: nums.len() / 8 }
+    }
+    /// deck indices (documented deck order) -> (ordinal, class code)
+    pub fn of_indices(&self, idx: &[usize; 5]) -> (u16, usize) {
+        let mut ranks = [0u32; 5];
+        let mut flush = true;
+        for k in 0..5 {
+            ranks[k] = 12 - (idx[k] as u32 % 13);
+            if idx[k] / 13 != idx[0] / 13 {
+                flush = false;
+            }
+        }
+        ranks.sort_unstable_by(|a, b| b.cmp(a));
+        let code = class_code(ranks, flush);
+        (self.ord[code], code)
+    }
+}
+
+/// C01: all 2,598,960 hands x slot orders x entry points against the spec-derived ordinal.
+fn sweep_c01(seed: u64, thorough: bool) -> Sweep {
+    let oracle = Oracle5::load();
+    let deck = layout_deck();
+    let mut rng = Rng::new(seed ^ 0xC01);
+    let perms: Vec<usize> = if thorough { (0..120).collect() } else { vec![0, 1 + rng.below(119) as usize, 1 + rng.below(119) as usize] };
+    let parts: Vec<(Sweep, Vec<bool>)> = par_ranges(48, 48, |lo, hi| {
+        let mut s = Sweep::default();
+        let mut seen = vec![false; 7463];
+        for a in lo as usize..hi as usize {
+            for b in a + 1..52 {
+                for c in b + 1..52 {
+                    for d in c + 1..52 {
+                        for e in d + 1..52 {
+                            let idx = [a, b, c, d, e];
+                            let (want, _) = oracle.of_indices(&idx);
+                            for &p in &perms {
+                                let pm = perm5(p);
+                                let arr = [deck[idx[pm[0]]], deck[idx[pm[1]]], deck[idx[pm[2]]], deck[idx[pm[3]]], deck[idx[pm[4]]]];
+                                let h = Five::from(arr);
+                                let got = guarded(|| {
+                                    let (v, hand) = h.hand_rank_value_and_hand();
+                                    (v, h.hand_rank_value(), h.hand_rank_value_validated(), ckc_rs::evaluate::five_cards(arr), h.hand_rank().value, hand.to_arr() == arr)
+                                });
+                                s.evaluations += 1;
+                                let good = got == Some((want, want, want, want, want, true));
+                                if !good {
+                                    s.fail(
+                                        "five-card value differs from the strength ordinal (and_hand, value, validated, five_cards, hand_rank.value, hand unchanged)",
+                                        &join(arr),
+                                        &want.to_string(),
+                                        &format!("{got:?}"),
+                                    );
+                                } else if (want as usize) < seen.len() {
+                                    seen[want as usize] = true;
+                                }
+                            }
+                        }
+                    }
+                }
+            }
+        }
+        (s, seen)
+    });
+    let mut s = Sweep { exhaustive: true, ..Default::default() };
+    let mut seen = vec![false; 7463];
+    for (part, sn) in parts {
+        s.merge(part);
+        for (i, b) in sn.iter().enumerate() {
+            seen[i] |= b;
+        }
+    }
+    let produced = (1..=7462).filter(|v| seen[*v]).count();
+    if produced != 7462 && s.failure_count == 0 {
+        let missing = (1..=7462).find(|v| !seen[*v]).unwrap();
+        s.fail("a value in 1..=7462 is produced by no hand", &missing.to_string(), "some hand", "none");
+    }
+    s.nontrivial = s.evaluations;
+    s.count("hands", 2_598_960);
+    s.count("slot-orders-per-hand", perms.len() as u64);
+    s.count("distinct-values-produced", produced as u64);
+    s.count("oracle-classes", oracle.classes as u64);
+    s.rule = format!(
+        "all 2,598,960 five-card hands x {} slot orders ({}), five entry points each, against the ordinal of the hand's class in the \
+         order by Spec.strength (oracle written by the Lean specification, no table involved); every (hand, order) is distinct and non-trivial",
+        perms.len(),
+        if thorough { "all 120" } else { "canonical + 2 seeded" }
+    );
+    s.sample(format!("royal flush {} -> {}", join(&deck[0..5]), Five::from([deck[0], deck[1], deck[2], deck[3], deck[4]]).hand_rank_value()));
+    s.sample(format!("7-5-4-3-2 -> {}", Five::from([deck[46], deck[35], deck[23], deck[11], deck[12]]).hand_rank_value()));
     s
 }
